@@ -256,6 +256,54 @@ fn f1(tier: Tier, acc: &Acc) {
     });
 }
 
+/// F4: every spelling of an HTML / XML template name, in every role a template can have
+fn f4(acc: &Acc) {
+    let prefixes = ["", "dir/", "v1.2/", "./", "a.b/c.d/", ".hidden/", "x.json/", "page.txt/"];
+    let stems = ["t", "t.min", "t.tar.gz", "index.html", ".t", "t.", "t.txt", "t.json", "T.MIN"];
+    let exts = [".html", ".htm", ".xml"];
+    let suffixes = ["", ".j2", ".jinja", ".jinja2"];
+    let mut names = vec![];
+    for p in prefixes {
+        for st in stems {
+            for e in exts {
+                for su in suffixes {
+                    names.push(format!("{}{}{}{}", p, st, e, su));
+                }
+            }
+        }
+    }
+    acc.count("f4_names", names.len() as u64);
+    let want = esc(T);
+    par_items(&names, acc, |_, name, l| {
+        let roles: Vec<(&str, Vec<(String, String)>, String, String)> = vec![
+            ("main", vec![(name.clone(), "{{ u }}".into())], name.clone(), want.clone()),
+            ("main_with_capture", vec![(name.clone(), "{% set c %}{{ u }}{% endset %}{% macro m(a) %}{{ a }}{% endmacro %}{{ c }}|{{ m(u) }}".into())], name.clone(), format!("{}|{}", want, want)),
+            ("included_fragment", vec![("page.html".into(), format!("[{{% include '{}' %}}]", name)), (name.clone(), "{{ u }}".into())], "page.html".into(), format!("[{}]", want)),
+            ("imported_library", vec![("page.html".into(), format!("{{% from '{}' import show %}}[{{{{ show(u) }}}}]", name)), (name.clone(), "{% macro show(a) %}{{ a }}{% endmacro %}".into())], "page.html".into(), format!("[{}]", want)),
+            ("layout_of_child", vec![("page.html".into(), format!("{{% extends '{}' %}}{{% block b %}}{{{{ u }}}}{{% endblock %}}", name)), (name.clone(), "{{ u }}<{% block b %}{% endblock %}>".into())], "page.html".into(), format!("{}<{}>", want, want)),
+            ("child_of_layout", vec![(name.clone(), "{% extends 'layout.html' %}{% block b %}{{ u }}{% endblock %}".into()), ("layout.html".into(), "{{ u }}<{% block b %}{% endblock %}>".into())], name.clone(), format!("{}<{}>", want, want)),
+        ];
+        for (role, templates, main, expect) in roles {
+            l.evals += 1;
+            let t: BTreeMap<String, String> = templates.into_iter().collect();
+            let got = render(&t, &main);
+            // the frames of two roles contain '<' '>' as template text
+            if got == Ok(Ok(expect.clone())) {
+                l.outcome("named template escapes exactly once");
+                l.nontrivial.insert(fnv(format!("{}|{}", name, role).as_bytes()));
+            } else {
+                let ext = name.trim_end_matches(".j2").trim_end_matches(".jinja2").trim_end_matches(".jinja").rsplit('.').next().unwrap_or("").to_string();
+                acc.fail(Failure {
+                    key: format!("names {} role={} ext={} dots_before_ext={}", if matches!(&got, Ok(Ok(o)) if raw_meta(&o.replace(['<', '>'], ""), false).is_some() || o.contains(T)) { "raw_metachar" } else { "output_differs" }, role, ext, name.matches('.').count() > 1 + usize::from(name.ends_with(".j2") || name.ends_with(".jinja") || name.ends_with(".jinja2"))),
+                    case: format!("{} as {}", name, role),
+                    detail: format!("got {:?} expected {:?}", got, expect),
+                    replay: json!({"family": "carriers", "templates": t, "main": main, "expect": expect}),
+                });
+            }
+        }
+    });
+}
+
 // ------------------------------------------------------------------------------------------
 // F2
 
@@ -648,6 +696,7 @@ pub fn main(args: Args) -> i32 {
         };
     }
     f1(args.tier, &acc);
+    f4(&acc);
     f2(args.tier, &acc);
     f3(args.tier, &acc);
     acc.sample(json!({"family": "carriers", "example": f1_templates("us", &[4, 15, 7], "extends_child").map(|t| t.0)}));
@@ -663,7 +712,7 @@ pub fn main(args: Args) -> i32 {
             tier: args.tier,
             seed: args.seed,
             rule: format!(
-                "F1: every chain of k <= {} identity carriers out of {} x {} sources x {} layouts, exact oracle: output == HTML-escape-once(text of the source); F2: every value expression of the atom pool (tainted string, literal, captured safe strings, lists, maps, nested, object, operators, displays) x every registered filter except `safe` in 3 application forms + every pycompat method x every argument tuple of arity <= 2 and 16 keyword names over the atom pool, then filter pairs with arity <= 1, oracle S1: no raw < > \" ' in the output (`tojson`: no raw < > '); F3: every depth-1 and {} depth-2 program of G under t.html x 2 tainted contexts, oracle S1 + identical output with R (safe bit per string), and the include/extends/import corpus (every {} program) with S1. distinct non-trivial = cases whose output contains escaped tainted text",
+                "F1: every chain of k <= {} identity carriers out of {} x {} sources x {} layouts, exact oracle: output == HTML-escape-once(text of the source); F4: 864 spellings of an HTML / XML template name (directories and stems with dots, dot files, other extensions in front, .j2 / .jinja / .jinja2 behind) in 6 roles (main template, with captures, included fragment, imported macro library, layout of a child, child of a layout), exact oracle; F2: every value expression of the atom pool (tainted string, literal, captured safe strings, lists, maps, nested, object, operators, displays) x every registered filter except `safe` in 3 application forms + every pycompat method x every argument tuple of arity <= 2 and 16 keyword names over the atom pool, then filter pairs with arity <= 1, oracle S1: no raw < > \" ' in the output (`tojson`: no raw < > '); F3: every depth-1 and {} depth-2 program of G under t.html x 2 tainted contexts, oracle S1 + identical output with R (safe bit per string), and the include/extends/import corpus (every {} program) with S1. distinct non-trivial = cases whose output contains escaped tainted text",
                 args.tier.pick(2, 3),
                 CARRIERS.len(),
                 SOURCES.len(),
